@@ -128,6 +128,10 @@ class FunctionCall:
                 context=self._context,
             )
 
+        self._num_of_args_bound_to_named_params = arg_index
+
+    _num_of_args_bound_to_named_params = 0  # the receiver and the positional values of the parameters declared before *args
+
     def _check_types_args(self, params: Dict[str, inspect.Parameter]) -> None:
         if not params:
             return
@@ -136,7 +140,7 @@ class FunctionCall:
         self._assert_param_has_type_annotation(param=param)
         expected = param.annotation
 
-        for arg in self.args:
+        for arg in self.args[self._num_of_args_bound_to_named_params:]:  # only the values collected by *args
             assert_value_matches_type(
                 value=arg,
                 type_=expected,
